@@ -598,7 +598,7 @@ func (tdsChan *Channel) WritePacket(packet *Packet) {
 	// response, as it may carry the EOM status.
 	if packet.Header.Length == PacketHeaderSize &&
 		packet.Header.MsgType != TDS_BUF_RESPONSE && packet.Header.MsgType != TDS_BUF_NORMAL {
-		tdsChan.packageCh <- HeaderOnlyPackage{Header: packet.Header}
+		tdsChan.packageCh <- &HeaderOnlyPackage{Header: packet.Header}
 		return
 	}
 
